@@ -38,10 +38,10 @@ type mMapping struct {
 }
 
 type mNAT struct {
-	oneToOne           bool
-	mapB, filtB        vnet.EndpointDependencyType
-	mapped, local      []string
-	maps               []*mMapping
+	oneToOne      bool
+	mapB, filtB   vnet.EndpointDependencyType
+	mapped, local []string
+	maps          []*mMapping
 }
 
 type mRouter struct {
